@@ -48,3 +48,60 @@ Section Broker.
     end.
   Definition brun (ops : list bop) : bstate := fold_left bstep ops {| bk_open := []; bk_auction := []; bk_final := []; bk_calls := [] |}.
 End Broker.
+
+(* ---- the broker's methods as programs over primitives (Gen/BrokerProg.v regenerates them from simulation_broker.py) ---- *)
+Inductive bprim :=
+| PMatchOpenUnlessAuction      (* if phase != OPEN_AUCTION: for (a, o) in non-final of _open_orders: match(a, o, open_auction=False) *)
+| PMatchAuctionBook            (* for (a, o) in non-final of _open_auction_orders: match(a, o, open_auction=True) *)
+| PCollectFinalBoth            (* final_orders = the final orders of both books *)
+| PRestBoth                    (* _open_orders = the non-final orders of both books *)
+| PClearAuction                (* _open_auction_orders.clear() *)
+| PAnnounceFinal               (* ORDER_UNSOLICITED_UPDATE for every collected order that is REJECTED or CANCELLED *)
+| PUpdateMatchers              (* for matcher in _matchers.values(): matcher.update(event) *)
+| PMatch                       (* self._match() *)
+| PClearTurnover               (* before_trading: the matchers' turnover is cleared *)
+| PReactivateOpen              (* before_trading: resting orders are active again and announced *)
+| PRejectOpen                  (* after_trading: every order of _open_orders is rejected and announced *)
+| PEmptyOpen                   (* _open_orders = [] *)
+| PReturnIfFinal               (* if order.is_final(): return *)
+| PPendingCancel | PMarkCancelled | PCancellationPass
+| PRemoveFromBothBooks         (* the order leaves _open_orders and _open_auction_orders *)
+| PCheckSubscribe | PRefuseMatchEffect | PPendingNew | PExerciseBook
+| PAppendByPhase               (* auction phase: _open_auction_orders.append, else _open_orders.append *)
+| PActivate | PCreationPass
+| PMatchIfImmediate.           (* if self._match_immediately: self._match() *)
+Definition expected_match : list bprim := [PMatchOpenUnlessAuction; PMatchAuctionBook; PCollectFinalBoth; PRestBoth; PClearAuction; PAnnounceFinal].
+Definition expected_on_bar : list bprim := [PUpdateMatchers; PMatch].
+Definition expected_before_trading : list bprim := [PClearTurnover; PReactivateOpen].
+Definition expected_after_trading : list bprim := [PRejectOpen; PEmptyOpen].
+Definition expected_cancel : list bprim := [PReturnIfFinal; PPendingCancel; PMarkCancelled; PCancellationPass; PRemoveFromBothBooks].
+Definition expected_submit : list bprim :=
+  [PCheckSubscribe; PRefuseMatchEffect; PPendingNew; PReturnIfFinal; PExerciseBook; PAppendByPhase; PActivate; PCreationPass; PMatchIfImmediate].
+Definition bprim_eqb (a b : bprim) : bool :=
+  match a, b with
+  | PMatchOpenUnlessAuction, PMatchOpenUnlessAuction | PMatchAuctionBook, PMatchAuctionBook | PCollectFinalBoth, PCollectFinalBoth
+  | PRestBoth, PRestBoth | PClearAuction, PClearAuction | PAnnounceFinal, PAnnounceFinal | PUpdateMatchers, PUpdateMatchers | PMatch, PMatch
+  | PClearTurnover, PClearTurnover | PReactivateOpen, PReactivateOpen | PRejectOpen, PRejectOpen | PEmptyOpen, PEmptyOpen
+  | PReturnIfFinal, PReturnIfFinal | PPendingCancel, PPendingCancel | PMarkCancelled, PMarkCancelled | PCancellationPass, PCancellationPass
+  | PRemoveFromBothBooks, PRemoveFromBothBooks | PCheckSubscribe, PCheckSubscribe | PRefuseMatchEffect, PRefuseMatchEffect | PPendingNew, PPendingNew
+  | PExerciseBook, PExerciseBook | PAppendByPhase, PAppendByPhase | PActivate, PActivate | PCreationPass, PCreationPass
+  | PMatchIfImmediate, PMatchIfImmediate => true
+  | _, _ => false
+  end.
+Fixpoint prog_eqb (a b : list bprim) : bool :=
+  match a, b with [], [] => true | x :: s, y :: t => bprim_eqb x y && prog_eqb s t | _, _ => false end.
+
+(* what the primitives of a matching round do to the books and the call log (the announcements leave both untouched) *)
+Section Interp.
+  Variable fin : nat -> nat -> bool.
+  Definition interp_prim (ph : bphase) (s : bstate) (p : bprim) : bstate :=
+    match p with
+    | PMatchOpenUnlessAuction => match ph with BAuction => s | BTrading => call_all fin s (bk_open s) false ph end
+    | PMatchAuctionBook => call_all fin s (bk_auction s) true ph
+    | PRestBoth => {| bk_open := filter (fun id => negb (mem id (bk_final s))) (bk_open s ++ bk_auction s); bk_auction := bk_auction s;
+                      bk_final := bk_final s; bk_calls := bk_calls s |}
+    | PClearAuction => {| bk_open := bk_open s; bk_auction := []; bk_final := bk_final s; bk_calls := bk_calls s |}
+    | _ => s
+    end.
+  Definition interp (ph : bphase) (prog : list bprim) (s : bstate) : bstate := fold_left (interp_prim ph) prog s.
+End Interp.
